@@ -2,6 +2,8 @@
 package main
 
 import (
+	"crypto/aes"
+	"crypto/cipher"
 	"encoding/json"
 	"fmt"
 	"sync"
@@ -25,6 +27,9 @@ type Fault struct {
 	Col2  int    `json:"col2"`
 	Row2  int    `json:"row2"`
 	Arg   int    `json:"arg"` // resp: label index (0 seed2,1 x,2 t0,3 t1); len: +1/-1 byte rows
+	// pair-x: a second flip in the same column at (Batch2, Chunk2, Row2): two rows of different chunks or batches
+	Batch2 string `json:"batch2,omitempty"`
+	Chunk2 int    `json:"chunk2,omitempty"`
 }
 
 type cs struct {
@@ -57,6 +62,23 @@ func clmulRef(a, b ot.Label) (lo, hi ot.Label) {
 		}
 	}
 	return ot.Label{D0: r[0], D1: r[1]}, ot.Label{D0: r[2], D1: r[3]}
+}
+
+// chiLabel is the harness's own derivation of the i-th challenge coefficient: block i of the AES-CTR key stream
+// (zero IV) keyed by the receiver's check seed.
+func chiLabel(seed ot.Label, i int) ot.Label {
+	var ld ot.LabelData
+	block, err := aes.NewCipher(seed.Bytes(&ld))
+	if err != nil {
+		panic(err)
+	}
+	var iv [16]byte
+	st := cipher.NewCTR(block, iv[:])
+	buf := make([]byte, 16*(i+1))
+	st.XORKeyStream(buf, buf)
+	var l ot.Label
+	l.SetBytes(buf[16*i:])
+	return l
 }
 
 func runMul(ctx *runner.Ctx, k cs) {
@@ -213,6 +235,42 @@ func runCase(ctx *runner.Ctx, k cs) {
 		if f.Kind == "pair-col" {
 			applied = flipBit(d, br, f.Col, f.Row2) && applied
 		}
+	case "adaptive":
+		// a flip of payload bit (col,row) together with the matching change of the response: the coefficient of
+		// the row is derived from the check seed, which travels in clear before the response; t ^= chi[row]*X^col
+		if f.Chunk >= len(list) || k.N > 1024 {
+			return
+		}
+		d := mut(list[f.Chunk])
+		applied = flipBit(d, len(d)/128, f.Col, f.Row)
+		var seed2 ot.Label
+		seed2.SetBytes(s.msgs[s.resp].Data)
+		chi := chiLabel(seed2, f.Chunk*512+f.Row)
+		var xc ot.Label
+		xc.SetBit(f.Col, 1)
+		lo, hi := clmulRef(chi, xc)
+		for i, l := range []ot.Label{lo, hi} {
+			var t ot.Label
+			t.SetBytes(mut(s.resp + 2 + i))
+			t.Xor(l)
+			var ld ot.LabelData
+			copy(msgs[s.resp+2+i].Data, t.Bytes(&ld))
+		}
+	case "pair-x":
+		list2 := s.payload
+		if f.Batch2 == "check" {
+			list2 = s.check
+		}
+		if f.Chunk >= len(list) || f.Chunk2 >= len(list2) {
+			return
+		}
+		d := mut(list[f.Chunk])
+		applied = flipBit(d, len(d)/128, f.Col, f.Row)
+		d2 := d
+		if list2[f.Chunk2] != list[f.Chunk] {
+			d2 = mut(list2[f.Chunk2])
+		}
+		applied = flipBit(d2, len(d2)/128, f.Col, f.Row2) && applied
 	case "col":
 		if f.Chunk >= len(list) {
 			return
@@ -271,6 +329,9 @@ func runCase(ctx *runner.Ctx, k cs) {
 	}()
 	selected := f.Col >= 0 && f.Col < 128 && d.Bit(f.Col) == 1
 	cls := fmt.Sprintf("%s/%s/sel=%v/chunk=%d/rowblock=%v", f.Kind, f.Batch, selected, f.Chunk, (f.Chunk*512+f.Row)%1024 >= 512)
+	if f.Kind == "pair-x" {
+		cls += fmt.Sprintf("/%s/chunk2=%d/same-row-mod-256=%v", f.Batch2, f.Chunk2, f.Row%256 == f.Row2%256)
+	}
 	if k.Generic {
 		cls = "generic-mul128/" + cls
 	}
@@ -296,7 +357,11 @@ func runCase(ctx *runner.Ctx, k cs) {
 			want.Xor(d)
 		}
 		if !s.recv[j].Equal(want) {
-			ctx.Violate("silent-accept."+f.Kind+"."+f.Batch, fmt.Sprintf("sender accepted without error but position %d no longer satisfies recv=sent^b*Delta (n=%d, fault %+v, column selected by Delta: %v)", j, k.N, f, selected), k)
+			kind := f.Kind
+			if kind == "adaptive" {
+				kind = fmt.Sprintf("adaptive-selected=%v", selected)
+			}
+			ctx.Violate("silent-accept."+kind+"."+f.Batch, fmt.Sprintf("sender accepted without error but position %d no longer satisfies recv=sent^b*Delta (n=%d, fault %+v, column selected by Delta: %v)", j, k.N, f, selected), k)
 			return
 		}
 	}
@@ -495,6 +560,76 @@ func work(ctx *runner.Ctx) {
 	} else {
 		ctx.Note("the overlay that exposes the portable multiplier could not be derived from the tree: only the build's own mul128 ran")
 	}
+	// two flips in one column in different batches or chunks (the challenge coefficients of the two rows must
+	// differ): every (payload row, check row) pair for a small batch; for multi-chunk batches every payload row
+	// with the check rows and the payload rows of other chunks that have the same index modulo 256/512/1024
+	xcols := []int{0, 1, 64, 127}
+	if !ctx.Quick() {
+		xcols = []int{0, 1, 2, 31, 63, 64, 65, 126, 127}
+	}
+	for _, n := range []int{9, 64} {
+		if ctx.Quick() && n != 9 {
+			continue
+		}
+		rows := (n + 7) / 8 * 8
+		for _, dc := range []bool{false, true} {
+			for _, c := range xcols {
+				for r := 0; r < rows; r++ {
+					for r2 := 0; r2 < 256; r2++ {
+						if !emit(cs{N: n, Choices: "alt", Seed: seed, DeltaC: dc, F: Fault{Kind: "pair-x", Batch: "payload", Col: c, Row: r, Batch2: "check", Row2: r2}}) {
+							return
+						}
+					}
+				}
+			}
+		}
+	}
+	// the adaptive alteration (matrix bit + matching response), every (column, row) of a small batch
+	for _, n := range []int{9, 130} {
+		rows := (n + 7) / 8 * 8
+		for _, dc := range []bool{false, true} {
+			for c := 0; c < 128; c++ {
+				for r := 0; r < rows; r++ {
+					if ctx.Quick() && n > 9 && (r%16 != c%16) {
+						continue
+					}
+					if !emit(cs{N: n, Choices: "alt", Seed: seed, DeltaC: dc, F: Fault{Kind: "adaptive", Batch: "payload", Col: c, Row: r}}) {
+						return
+					}
+				}
+			}
+		}
+	}
+	xbig := []int{1030, 2049}
+	if ctx.Quick() {
+		xbig = []int{1100}
+	}
+	for _, n := range xbig {
+		nchunks := (n + 511) / 512
+		for _, dc := range []bool{false, true} {
+			for _, c := range xcols {
+				for p := 0; p < n; p++ {
+					ck, r := p/512, p%512
+					if ctx.Quick() && p%5 != 0 && p%256 > 2 {
+						continue
+					}
+					if !emit(cs{N: n, Choices: "alt", Seed: seed, DeltaC: dc, F: Fault{Kind: "pair-x", Batch: "payload", Chunk: ck, Col: c, Row: r, Batch2: "check", Row2: p % 256}}) {
+						return
+					}
+					for ck2 := ck + 1; ck2 < nchunks; ck2++ {
+						for _, r2 := range []int{r, (r + 256) % 512} {
+							if ck2*512+r2 >= (n+7)/8*8 {
+								continue
+							}
+							if !emit(cs{N: n, Choices: "alt", Seed: seed, DeltaC: dc, F: Fault{Kind: "pair-x", Batch: "payload", Chunk: ck, Col: c, Row: r, Batch2: "payload", Chunk2: ck2, Row2: r2}}) {
+								return
+							}
+						}
+					}
+				}
+			}
+		}
+	}
 	// multi-chunk batches: every row of every chunk for 8 columns, and every column for boundary rows
 	big := []int{513, 600, 1024, 1030, 1537, 2049}
 	if ctx.Quick() {
@@ -562,7 +697,7 @@ func main() {
 	runner.Main(runner.Spec{
 		ID:    id,
 		Level: "fault_enumeration",
-		Rule: "honest runs for every n in 1..300 (thorough 700) and chunk boundaries up to 2049 never abort; faults: EVERY (column 0..127, row) single-bit flip of the payload matrix and of the 256-row check matrix for small n, every pair of flips within a row and within a column (first 16), whole columns, whole rows, chunk length +-128, every bit of seed2/x/t0/t1; multi-chunk batches (513..2049 rows): every row of every chunk for 8 columns (thorough: all 128 columns) and every column for boundary rows; each under Delta and its complement so every column is selected once. " +
+		Rule: "honest runs for every n in 1..300 (thorough 700) and chunk boundaries up to 2049 never abort; faults: EVERY (column 0..127, row) single-bit flip of the payload matrix and of the 256-row check matrix for small n, every pair of flips within a row and within a column (first 16), whole columns, whole rows, chunk length +-128, every bit of seed2/x/t0/t1; two flips in one column in different batches/chunks (every payload row x every check row for a small batch; rows with equal index modulo 256/512/1024 in multi-chunk batches); multi-chunk batches (513..2049 rows): every row of every chunk for 8 columns (thorough: all 128 columns) and every column for boundary rows; each under Delta and its complement so every column is selected once. " +
 			"distinct_nontrivial = distinct (fault kind, batch, column selected?, chunk, row block, n) classes plus honest sizes",
 		Assumptions: []string{
 			"base OT = ideal functionality; the receiver's honest message list is recorded once per (n, choices, seed) and the real sender is re-run on each mutated list",
